@@ -64,8 +64,22 @@ def evaluate(spec):
     distinct = set()
     evals = 0
     cut_inside_record = False
+    # secrets inside the capture: one decryption secrets block per connection, written right before the connection's first packet -
+    # a cut in front of that packet cuts the block off as well
+    per_conn_dsb = None
+    if spec.get("dsb_per_conn"):
+        per_conn_dsb = []
+        for ci, conn in enumerate(b.conns):
+            lines = [b.keylog.index(ln) for ln in getattr(conn, "keylog", []) if ln in b.keylog]
+            first = next((i for i, p in enumerate(b.pkts) if p.conn == ci), None)
+            if lines and first is not None:
+                per_conn_dsb.append((first, lines))
+        per_conn_dsb.sort()
     for k in range(0, n + 1):
-        o = oracle.run_e2e(b, wd, pkts=b.pkts[:k], name="cut")
+        keys = None
+        if per_conn_dsb is not None:
+            keys = {"file": False, "dsb": [ln for first, ln in per_conn_dsb if first < k], "dsb_pos": "first"}
+        o = oracle.run_e2e(b, wd, pkts=b.pkts[:k], keys=keys, name="cut")
         evals += 1
         f = oracle.base_failure(o)
         if f:
@@ -102,7 +116,7 @@ def evaluate(spec):
                 cut_inside_record = True
     kinds = "+".join(sorted(c["kind"] for c in spec["conns"]))
     return {"sig": sig, "detail": detail, "nontrivial": len(distinct) >= 3 and (cut_inside_record or "quic" in kinds), "evals": evals,
-            "labels": ["kinds:" + kinds, "cuts:%s" % ("<=20" if n <= 20 else "21-40" if n <= 40 else "41+"), "growth-steps:%d" % min(len(distinct), 9)]}
+            "labels": ["kinds:" + kinds, "keys:" + ("dsb-per-connection" if spec.get("dsb_per_conn") else "file"), "cuts:%s" % ("<=20" if n <= 20 else "21-40" if n <= 40 else "41+"), "growth-steps:%d" % min(len(distinct), 9)]}
 
 
 @st.composite
@@ -124,7 +138,8 @@ def spec_strategy(draw, tier):
             c = draw(strategies.quic_conn(max_steps=6, ep=ep))
         c["seed"] = c["seed"] * 8 + i
         conns.append(c)
-    return {"conns": conns, "order": draw(st.lists(st.integers(0, 3), min_size=1, max_size=8)), "tseed": draw(st.integers(1, 500))}
+    return {"conns": conns, "order": draw(st.lists(st.integers(0, 3), min_size=1, max_size=8)), "tseed": draw(st.integers(1, 500)),
+            "dsb_per_conn": draw(st.sampled_from([False, False, True]))}
 
 
 def late_handshake_specs():
@@ -143,7 +158,7 @@ def late_handshake_specs():
                 a, b_ = conn(0, va, frag), conn(1, vb, 0)
                 # order: A's first packet(s) [when A is created first], then all of B, then the rest of A
                 order = ([0] if first == 0 else []) + [1] * 40 + [0] * 60
-                out.append({"conns": [a, b_], "order": order, "tseed": 1 + i})
+                out.append({"conns": [a, b_], "order": order, "tseed": 1 + i, "dsb_per_conn": bool(i % 2)})
                 i += 1
     # a QUIC client that changes its address in the middle of the connection (both endpoints use connection IDs): what was exported
     # before the change stays as it was
@@ -168,6 +183,7 @@ RULE = ("stage late-handshake-behind-a-complete-connection: two TLS connections,
         "stream for TLS, datagram list for QUIC) is a prefix of E(k+1), E(k) is a prefix of the ground truth, E(N) equals it.  Non-trivial: the "
         "chain has >= 3 distinct values and a cut falls strictly inside a TLS record that spans packets (or the capture has a QUIC connection); "
         "evaluations count TLExport runs")
-ASSUMPTIONS = ["cuts are made between captured packets (a capture file holds whole packets)"]
+ASSUMPTIONS = ["cuts are made between captured packets (a capture file holds whole packets)",
+               "in a third of the captures the secrets travel in the capture, one decryption secrets block per connection in front of its first packet"]
 
 CHECK = Check(PID, "fault_enumeration", RULE, ASSUMPTIONS, stages)
